@@ -16,7 +16,7 @@ MANIFEST = {
     "text": "Breadth-first search over operation histories of depth <= 3 (thorough 4) on one live matcher from the alphabet {M(k): fresh "
             "match of the first k observations (first operation; thorough: anywhere), X(k): match(first k, expand=True) for k >= current "
             "length, W(w): increase_max_lattice_width for w above the current width, C: continue_with_distance() with default and "
-            "explicit radius}, on 57 graphs with 3 nodes, twelve named 4-5 node graphs, four traces (two without, two with an "
+            "explicit radius}, on 57 graphs with 3 nodes, 26 named 4-12 node graphs, four traces (two without, two with an "
             "outlier so that early stops and the jump logic are reachable), 3 families x non-emitting on/off x initial width {None,1} x "
             "2 cut-off sets. States are de-duplicated on a canonical lattice snapshot (keys, rounded probabilities, delayed, stop, "
             "predecessor keys, round, width, trace length, early-stop index). In EVERY reached state, whether or not the call raised, "
@@ -28,6 +28,8 @@ MANIFEST = {
             "raised by a call is not a C09 violation (C17 covers totality of match), the state after it is still checked.",
     "technique": "explicit-state BFS over operation histories of the real object with canonical-state de-duplication and invariants on every state",
 }
+MANIFEST["text"] += " " + (
+    "Added after the seeding waves: where neither a lattice width nor non-emitting states are configured, 'live' is additionally read as 'scheduled for the current round' (nothing can legitimately re-postpone a predecessor there); graphs with a connectivity gap (two islands, two feeder roads) so that continue_with_distance produces live jump entries; width-2 configurations.")
 BUDGET = {"quick": 420, "thorough": 3000}
 RULE = ("cases = (graph, trace); below each, one BFS per configuration. states = distinct canonical lattice snapshots reached, "
         "transitions = public operations executed (including replays to rebuild a state), traces validated = states on which all "
